@@ -870,6 +870,7 @@ pub fn case_at(seed: u64, quick: bool, k: usize, corpus: &[KCase]) -> KCase {
     };
     let n_v = base.coords.len();
     let n_e = base.edges.len();
+    let yen = rng.chance(3, 10);
     // origin / destination: mostly far apart corners of the shape
     base.edge_oriented = rng.chance(1, 8);
     if base.edge_oriented {
@@ -886,6 +887,24 @@ pub fn case_at(seed: u64, quick: bool, k: usize, corpus: &[KCase]) -> KCase {
             Some(rng.below(n_v))
         };
         base.reverse = rng.chance(1, 10); // ignored by the KSP algorithms
+        // Yen's algorithm only gets anywhere on routes of three edges or more: prefer a far destination
+        if yen && base.target.is_some() && rng.chance(3, 4) {
+            let s0 = base.source;
+            let mut hops = vec![usize::MAX; n_v];
+            hops[s0] = 0;
+            let mut q = std::collections::VecDeque::from([s0]);
+            while let Some(v) = q.pop_front() {
+                for (a, b2, _) in &base.edges {
+                    if *a == v && hops[*b2] == usize::MAX {
+                        hops[*b2] = hops[v] + 1;
+                        q.push_back(*b2);
+                    }
+                }
+            }
+            if let Some((far, _)) = hops.iter().enumerate().filter(|(_, h)| **h != usize::MAX).max_by_key(|(_, h)| **h) {
+                base.target = Some(far);
+            }
+        }
     }
     if profile != 3 && rng.chance(1, 6) {
         // turn restrictions between consecutive edges
@@ -928,7 +947,6 @@ pub fn case_at(seed: u64, quick: bool, k: usize, corpus: &[KCase]) -> KCase {
         3 | 4 => Some(KTerm::MaxIt(rng.below(8) as u64)),
         _ => Some(KTerm::Factor(rng.below(4) as u64)),
     };
-    let yen = rng.chance(3, 10);
     KCase { base, yen, k_default, query_k, sim, term, style, bf_ok, label: "" }
 }
 
@@ -1008,14 +1026,22 @@ pub fn child_main(args: &[String]) {
     let tier = if quick { crate::ctx::Tier::Quick } else { crate::ctx::Tier::Thorough };
     let mut ctx = Ctx::new(seed, tier, None, None);
     let corpus = corpus();
-    let kc = case_at(seed, quick, k, &corpus);
-    run_yen_child(&mut ctx, k, &kc);
+    let mut kc = case_at(seed, quick, k, &corpus);
+    if let Some(ko) = args.get(4).and_then(|x| x.parse::<usize>().ok()) {
+        // schedule-recovery run (see `recover_schedules`): same case, smaller k
+        kc.k_default = ko;
+        kc.query_k = None;
+    }
+    let scheds = run_yen_child(&mut ctx, k, &kc);
+    let text: Vec<String> = scheds.iter().map(|s| s.iter().map(|v| v.to_string()).collect::<Vec<_>>().join(" ")).collect();
+    std::fs::create_dir_all(&dir).expect("child dir");
+    std::fs::write(format!("{}/scheds.txt", dir), text.join("\n")).expect("write scheds");
     ctx.write(&dir, "C13", "").expect("write child outputs");
 }
 
-fn run_yen_child(ctx: &mut Ctx, idx: usize, kc: &KCase) {
+fn run_yen_child(ctx: &mut Ctx, idx: usize, kc: &KCase) -> Vec<Vec<usize>> {
     let c = &kc.base;
-    let Ok(mut b) = build(c) else { return };
+    let Ok(mut b) = build(c) else { return vec![] };
     let (plain, _) = plain_run(kc, &b);
     let exhausted = Arc::new(AtomicBool::new(false));
     b.si.frontier_model = Arc::new(BudgetFrontier {
@@ -1058,7 +1084,7 @@ fn run_yen_child(ctx: &mut Ctx, idx: usize, kc: &KCase) {
                 ex.runs, YEN_FRONTIER_BUDGET, k_eff, plain_len, kc.sim
             ),
         );
-        return;
+        return ex.scheds;
     }
     match &ex.outcome {
         Outcome::Ok(r) => {
@@ -1094,6 +1120,44 @@ fn run_yen_child(ctx: &mut Ctx, idx: usize, kc: &KCase) {
             }
         }
     }
+    ex.scheds
+}
+
+/// A run that was killed left no trace.  The turns of `while accepted.len() < k` do not depend on k
+/// (the inner `for` loop never looks at it), so the same case with a smaller k replays a prefix of
+/// the killed run: take the largest k' < k whose run returns and use its schedules — the turn after
+/// them is the one that spins on a route of at most two edges, which needs no schedule.
+fn recover_schedules(seed: u64, quick: bool, idx: usize, kc: &KCase, base_dir: &str) -> Option<Vec<Vec<usize>>> {
+    let k = effective_k(kc)?;
+    for ko in (1..k).rev() {
+        let dir = format!("{}_k{}", base_dir, ko);
+        let Ok(mut child) = spawn_child(seed, quick, idx, &dir, Some(ko)) else { continue };
+        let t0 = std::time::Instant::now();
+        let mut done = false;
+        while (t0.elapsed().as_millis() as u64) < YEN_TIMEOUT_MS {
+            if let Ok(Some(_)) = child.try_wait() {
+                done = true;
+                break;
+            }
+            std::thread::sleep(std::time::Duration::from_millis(5));
+        }
+        if !done {
+            let _ = child.kill();
+            let _ = child.wait();
+            let _ = std::fs::remove_dir_all(&dir);
+            continue;
+        }
+        let text = std::fs::read_to_string(format!("{}/scheds.txt", dir)).ok();
+        let impl_line = std::fs::read_to_string(format!("{}/impl.txt", dir)).unwrap_or_default();
+        let _ = std::fs::remove_dir_all(&dir);
+        if impl_line.contains(" ok ") {
+            let text = text?;
+            return Some(
+                text.lines().map(|l| l.split_whitespace().filter_map(|x| x.parse().ok()).collect()).collect(),
+            );
+        }
+    }
+    None
 }
 
 struct Pending {
@@ -1104,11 +1168,14 @@ struct Pending {
     started: std::time::Instant,
 }
 
-fn spawn_child(seed: u64, quick: bool, idx: usize, dir: &str) -> std::io::Result<std::process::Child> {
+fn spawn_child(seed: u64, quick: bool, idx: usize, dir: &str, k_override: Option<usize>) -> std::io::Result<std::process::Child> {
     use std::os::unix::process::CommandExt;
     let exe = std::env::current_exe()?;
     let mut cmd = std::process::Command::new(exe);
     cmd.arg("C13-child").arg(seed.to_string()).arg(if quick { "1" } else { "0" }).arg(idx.to_string()).arg(dir);
+    if let Some(ko) = k_override {
+        cmd.arg(ko.to_string());
+    }
     cmd.stdin(std::process::Stdio::null()).stdout(std::process::Stdio::null()).stderr(std::process::Stdio::null());
     unsafe {
         cmd.pre_exec(|| {
@@ -1165,11 +1232,19 @@ fn finish_child(ctx: &mut Ctx, p: Pending, status: Option<std::process::ExitStat
             return;
         };
         let (plain, sched0) = plain_run(kc, &b);
-        let line = encode_k(kc, &b, &[sched0], &[]);
-        ctx.emit(p.idx, line, "diverges".into());
-        describe_k(ctx, kc);
         let len = plain_route_len(kc, &plain);
         let timed_out = status.is_none();
+        let mut scheds = vec![sched0];
+        if timed_out && matches!(len, Some(l) if l >= 3) {
+            // the first turns were productive: their schedules are needed for the replay
+            if let Some(sc) = recover_schedules(ctx.seed, ctx.quick(), p.idx, kc, &p.dir) {
+                ctx.count("schedules_recovered_with_smaller_k");
+                scheds = sc;
+            }
+        }
+        let line = encode_k(kc, &b, &scheds, &[]);
+        ctx.emit(p.idx, line, "diverges".into());
+        describe_k(ctx, kc);
         let how = if timed_out {
             format!("killed after {} ms (resident set {} kB)", YEN_TIMEOUT_MS, rss_at_kill.unwrap_or(0))
         } else {
@@ -1189,8 +1264,8 @@ fn finish_child(ctx: &mut Ctx, p: Pending, status: Option<std::process::ExitStat
                     "yens/diverges-two-edge-route"
                 }
                 _ => {
-                    ctx.count("outcome_diverges_other");
-                    "yens/diverges-timeout"
+                    ctx.count("outcome_diverges_later_short_route");
+                    "yens/diverges-later-short-route"
                 }
             }
         };
@@ -1211,7 +1286,7 @@ fn run_yen_batch(ctx: &mut Ctx, items: Vec<(usize, KCase)>) {
         while running.len() < max_par {
             let Some((idx, kc)) = queue.pop_front() else { break };
             let dir = base.join(idx.to_string()).to_string_lossy().to_string();
-            match spawn_child(seed, quick, idx, &dir) {
+            match spawn_child(seed, quick, idx, &dir, None) {
                 Ok(child) => running.push(Pending { idx, kc, dir, child, started: std::time::Instant::now() }),
                 Err(e) => ctx.fail(idx, "harness/spawn-failed", e.to_string()),
             }
